@@ -25,11 +25,27 @@ pub fn clone_vs(s: &VString) -> (r: VString) ensures r == *s { unimplemented!() 
 #[verifier::external_body] pub struct HeapV { x: usize }
 #[verifier::external_body] pub struct OtherV { x: usize }
 
+// a variable cell handle (PrimitiveFlagsPair = Gc<GcCell<(Primitive, flags)>>): opaque, identified by the cell it points to.
+// Assumed semantics of the `gc` dependency: clone keeps the cell; a write through one handle is seen through every handle of the cell.
+#[verifier::external_body] pub struct Handle { x: usize }
+pub uninterp spec fn cell_id(h: &Handle) -> int;
+#[verifier::external_body]
+pub fn clone_handle(h: &Handle) -> (r: Handle) ensures cell_id(&r) == cell_id(h) { unimplemented!() }
+// a capture map (VariableMapping = Gc<GcCell<HashMap<String, PrimitiveFlagsPair>>>): finite map from names to handles (assumed std::HashMap semantics)
+#[verifier::external_body] pub struct Caps { x: usize }
+pub uninterp spec fn caps_view(c: &Caps) -> Map<Seq<char>, Handle>;
+#[verifier::external_body]
+pub fn caps_get(c: &Caps, name: &VString) -> (r: Option<Handle>)
+    ensures r is Some <==> caps_view(c).contains_key(text_of(name)),
+            r is Some ==> cell_id(&r->Some_0) == cell_id(&caps_view(c)[text_of(name)]) { unimplemented!() }
+pub struct PrimitiveFunction { pub location: VString, pub callback_state: Option<Caps> }
+
 pub enum Primitive {
     Bool(bool), Int(i32), BigInt(i128), Byte(u8), Float(FloatV), Str(StrV),
     Optional(Option<Box<Primitive>>),
     HeapPrimitive(HeapV),            // pointer into a list / map / object slot
-    Other(OtherV),                   // Function, BuiltInFunction, Vector, Object, Module, Map
+    Function(PrimitiveFunction),
+    Other(OtherV),                   // BuiltInFunction, Vector, Object, Module, Map
 }
 #[verifier::external_body]
 pub fn clone_prim(p: &Primitive) -> (r: Primitive) ensures r == *p { unimplemented!() }
@@ -51,7 +67,11 @@ pub fn move_out(p: Primitive) -> (r: Result<Primitive, VErr>)
 
 pub enum Exit { NoExit, Goto(isize), PushScope(SpecialScope), PopScope, GotoPopScope(isize, usize), ReturnValue(Box<Primitive>), JumpRequest(JumpRequest) }
 pub enum SpecialScope { If, Else, WhileLoop }
-pub struct JumpRequest { pub lib_name: VString, pub func_name: VString, pub is_library: bool, pub arguments: Vec<Primitive> }
+#[verifier::external_body] pub struct StackRef { x: usize }          // Rc<RefCell<Stack>>
+pub enum JumpRequestDestination { Standard(VString), Module(VString), Library { lib_name: VString, func_name: VString } }
+pub struct JumpRequest { pub destination: JumpRequestDestination, pub callback_state: Option<Caps>, pub stack: StackRef, pub arguments: Vec<Primitive> }
+#[verifier::external_body]
+pub fn clone_stack(v: &Vec<Primitive>) -> (r: Vec<Primitive>) ensures r@ == v@ { unimplemented!() }
 
 // slice helpers (assumed std contracts)
 #[verifier::external_body]
